@@ -1796,11 +1796,25 @@ def expr_of_function(fdef):
                     value=last.value,
                     slice=ast.Constant(value=names.index(ret.id)),
                     ctx=ast.Load())
-        if all(isinstance(st.targets[0], ast.Name) for st in body[:-1]):
+        if all(isinstance(st.targets[0], ast.Name) or (
+                isinstance(st.targets[0], ast.Tuple) and
+                isinstance(st.value, ast.Name) and
+                N._unpack_defs(st.targets[0], st.value) is not None)
+               for st in body[:-1]):
             import copy
             env = {}
             seen = set()
             for st in body[:-1]:
+                if isinstance(st.targets[0], ast.Tuple):
+                    # a, b, c = record  (record a plain name): the pieces
+                    # stand for record[0], record[1], record[2]
+                    for name, val in N._unpack_defs(st.targets[0],
+                                                    st.value):
+                        if name in seen:
+                            return None
+                        seen.add(name)
+                        env[name] = N.subst(copy.deepcopy(val), env)
+                    continue
                 name = st.targets[0].id
                 if name in seen:
                     return None
